@@ -150,6 +150,15 @@ def run_case(case, ctx):
               lambda: "train2 indicator %r expected %r" % (list(np.asarray(c21)), e21))
     ctx.check(sum(np.asarray(c12)) == sum(np.asarray(c21)), "mutual_counts",
               lambda: "train1 has %r coincident spikes, train2 %r" % (sum(c12), sum(c21)))
+    # ... and through the public filter: with two trains and threshold 0 it keeps
+    # exactly the coincident spikes
+    kept = ctx.call("filter_by_spike_sync", pyspike.filter_by_spike_sync, [st1, st2], 0.0, **kw)
+    ka = [float(t) for t, v in zip(case["trains"][0], e12) if v]
+    kb = [float(t) for t, v in zip(case["trains"][1], e21) if v]
+    ctx.check([float(v) for v in kept[0].spikes] == ka and
+              [float(v) for v in kept[1].spikes] == kb, "filter_indicator",
+              lambda: "filter_by_spike_sync(threshold=0, %r) keeps %r / %r, the profile marks "
+                      "%r / %r" % (kw, list(kept[0].spikes), list(kept[1].spikes), ka, kb))
     # scalar
     sy = sum(e[1] for e in exp)
     smp = sum(e[2] for e in exp)
